@@ -300,9 +300,47 @@ def generate():
             lstr(name), llist(["(%s, %s)" % (lstr(k), c) for k, c in preds]), llist([lstr(b) for b in bl])))
     lines.append("def resolvers : List ResolverInfo := [\n%s]\n" % ",\n".join(rl))
     lines.append("def blocklistMode : BlocklistMode := %s\n" % mode)
+    lines.append("def bufferHash : HashKind := %s\n" % buffer_hash_kind(ns))
     lines.append("def numpyPresent : Bool := %s\n" % lbool(has_numpy))
     lines.append("end SC.Generated")
     return "\n".join(lines) + "\n"
+
+
+def buffer_hash_kind(ns):
+    """`.cryptographic` iff every `return` of SerializedFileBufferedCollection._hash that returns a
+    value returns `<m>.hexdigest()` / `.digest()` of an object built by hashlib.<known algorithm>
+    (directly or through one local variable) and nothing else is returned"""
+    import inspect
+    import textwrap
+    good = {"md5", "sha1", "sha224", "sha256", "sha384", "sha512", "sha3_224", "sha3_256", "sha3_384", "sha3_512", "blake2b", "blake2s"}
+    try:
+        mod = __import__("synced_collections.buffers.serialized_file_buffered_collection", fromlist=["x"])
+        fn = mod.SerializedFileBufferedCollection.__dict__["_hash"]
+        fn = getattr(fn, "__func__", fn)
+        tree = ast.parse(textwrap.dedent(inspect.getsource(fn)))
+    except Exception:  # noqa: BLE001
+        return ".otherHash"
+
+    def is_hashlib_ctor(e):
+        return isinstance(e, ast.Call) and isinstance(e.func, ast.Attribute) and e.func.attr in good and \
+            isinstance(e.func.value, ast.Name) and e.func.value.id == "hashlib"
+    hvars = set()
+    for node in ast.walk(tree):
+        if isinstance(node, ast.Assign) and is_hashlib_ctor(node.value):
+            for t in node.targets:
+                if isinstance(t, ast.Name):
+                    hvars.add(t.id)
+    rets = [n for n in ast.walk(tree) if isinstance(n, ast.Return) and n.value is not None
+            and not (isinstance(n.value, ast.Constant) and n.value.value is None)]
+    if not rets:
+        return ".otherHash"
+    for r in rets:
+        v = r.value
+        ok = isinstance(v, ast.Call) and isinstance(v.func, ast.Attribute) and v.func.attr in ("hexdigest", "digest") and (
+            (isinstance(v.func.value, ast.Name) and v.func.value.id in hvars) or is_hashlib_ctor(v.func.value))
+        if not ok:
+            return ".otherHash"
+    return ".cryptographic"
 
 
 def assigned_on_self(cls):
